@@ -3,7 +3,7 @@
 PROPS = {
     'C08': {
         'contracts': ['contracts.gate:StartEnd', 'contracts.gate:HighLow', 'contracts.gate:Ellipse'],
-        'bounded': False,
+        'bounded': True,
         'level': 'proof',
         'explanation': 'gate.start_end / high_low / ellipse: mask == documented predicate, gated == data[mask], '
                        'metadata kept, error cases; all N, D, thresholds symbolic.',
@@ -14,7 +14,7 @@ PROPS['C04'] = {
     'contracts': ['contracts.io:NameToIndex', 'contracts.io:Range', 'contracts.io:Resolution',
                   'contracts.io:AmplificationType', 'contracts.io:AmplifierGain', 'contracts.io:DetectorVoltage',
                   'contracts.io:ChannelLabels', 'contracts.io:ArrayFinalize', 'contracts.io:GetItem', 'contracts.io:SetItem'],
-    'bounded': False,
+    'bounded': True,
     'level': 'proof',
     'explanation': 'FCSData.__getitem__ over the key grammar rows x cols (symbolic N, D, positions, names, list lengths): '
                    'values == plain array indexing of the translated key, every per-channel attribute == that of the selected '
@@ -23,13 +23,23 @@ PROPS['C04'] = {
 
 PROPS['C20'] = {
     'contracts': ['contracts.io:ArrayFinalize', 'contracts.io:PickleRoundTrip', 'contracts.io:FileEq', 'contracts.io:FileNe'],
-    'bounded': False,
+    'bounded': True,
     'level': 'proof',
     'explanation': 'State invariant instead of history enumeration: for a sample with arbitrary (symbolic) attribute values, '
                    '__array_finalize__ propagates every attribute assigned in __new__ as a fresh deep copy (copy/deepcopy/view/'
                    'slice/ufunc results), __setstate__(__reduce__(x)) restores every attribute and the array part for both '
                    'shapes of the superclass state, FCSFile.__eq__/__ne__ are the conjunction over name, header, keywords, '
                    'events, analysis.',
+}
+
+PROPS['C06'] = {
+    'contracts': ['contracts.transform:ToMef', 'contracts.io:NameToIndex'],
+    'bounded': True,
+    'level': 'proof',
+    'explanation': 'transform.to_mef with symbolic numbers of curves, curve channels and requested channels (names or positions): '
+                   'loop invariants for the coverage test and the conversion loop; requested columns carry their own curve, all '
+                   'others and all non-range metadata identical, ranges follow the curve, input unmodified; refusal iff length '
+                   'mismatch / uncovered channel / unknown name.',
 }
 
 NOT_APPLICABLE = {}
